@@ -127,13 +127,14 @@ def record_and_validate(chk, n, rng):
     for i in range(n):
         nc = rng.choice([2, 2, 3])
         jobs.append({"i": i, "clients": nc, "versions": rng.choice([3, 5, 8]), "admin": rng.choice([1, 2, 3]),
-                     "seed": rng.randrange(1 << 30), "close_early": rng.random() < 0.35})
+                     "seed": rng.randrange(1 << 30), "close_early": rng.random() < 0.35,
+                     "vadd": rng.choice([0, 0, 1, nc])})     # how many of the clients write with VAdd (own index, one vector per version)
     results = []
 
     def one(job):
         path = os.path.join(d, "t%d.ndjson" % job["i"])
         argv = [binary, "wtrace", "-out", path, "-clients", str(job["clients"]), "-versions", str(job["versions"]),
-                "-admin", str(job["admin"]), "-seed", str(job["seed"]), "-kinds", kinds]
+                "-admin", str(job["admin"]), "-seed", str(job["seed"]), "-kinds", kinds, "-vadd", str(job.get("vadd", 0))]
         if job["close_early"]:
             argv.append("-close-early")
         env = dict(os.environ, TMPDIR=d)
@@ -183,6 +184,7 @@ def record_and_validate(chk, n, rng):
         else:
             chk.infra.append("trace recorder failed: %s" % info)
     chk.cov["recorded_traces"] = len(results)
+    chk.cov["recorded_traces_with_vadd_clients"] = sum(1 for job, status, _, _ in results if job.get("vadd") and status == "accepted")
     chk.cov["recorded_traces_accepted"] = accepted
     chk.cov["recorded_events"] = nevents
     chk.cov["traces_validated_against_impl"] += accepted
